@@ -106,7 +106,7 @@ macro_rules! run_chain {
                 Err(e) => send_err = Value::String(err_name(&e)),
                 Ok(stream) => {
                     let mut stream = std::pin::pin!(stream);
-                    'outer: for _ in 0..200 {
+                    'outer: for _ in 0..5000 {
                         loop {
                             let mut nx = stream.next();
                             match poll_once(std::pin::Pin::new(&mut nx)) {
@@ -198,8 +198,15 @@ fn main() {
         let case: Value = serde_json::from_str(&line).unwrap();
         let r = std::panic::catch_unwind(|| run_case(&case));
         let out = match r {
-            Ok(v) => v,
-            Err(_) => json!({"id": case["id"], "panic": true}),
+            Ok(mut v) => {
+                // polls that returned Pending without a pending transport and without a wake
+                v["lost_wakeups"] = json!(zv::take_lost_wakeups());
+                v
+            }
+            Err(_) => {
+                zv::take_lost_wakeups();
+                json!({"id": case["id"], "panic": true})
+            }
         };
         writeln!(w, "{}", out).unwrap();
     }
